@@ -15,7 +15,15 @@ def primes(n):
 
 
 def icbrt(n):
-    x = int(round(n ** (1.0 / 3)))
+    """floor cube root by Newton iteration on integers"""
+    if n < 8:
+        return 1 if n else 0
+    x = 1 << ((n.bit_length() + 2) // 3)
+    while True:
+        y = (2 * x + n // (x * x)) // 3
+        if y >= x:
+            break
+        x = y
     while x ** 3 > n:
         x -= 1
     while (x + 1) ** 3 <= n:
